@@ -23,9 +23,25 @@ import (
 
 func H(n string) string { return fmt.Sprintf(`namespace "urn:%s"; prefix %s;`, n, n) }
 
+// bigDir: a container with 40 children and a list with 33 (directories beyond any small threshold
+// at which a per-node table might be built lazily on the read path)
+var bigDir = func() string {
+	var sb strings.Builder
+	sb.WriteString(" container big {")
+	for i := 0; i < 40; i++ {
+		fmt.Fprintf(&sb, " leaf b%02d { type string; }", i)
+	}
+	sb.WriteString(" } list bigl { key k00;")
+	for i := 0; i < 33; i++ {
+		fmt.Fprintf(&sb, " leaf k%02d { type string; }", i)
+	}
+	sb.WriteString(" }")
+	return sb.String()
+}()
+
 func schema(tag string) []dump.File {
 	return []dump.File{
-		{Name: "a.yang", Text: `module a { ` + H("a") + ` typedef t { type int8 { range "1..9"; } default 3; } identity base; identity d1 { base base; } grouping g { leaf gl { type t; } list gli { key k; leaf k { type string; } } } container c { uses g; leaf x { type string; default "` + tag + `"; } } leaf r { type identityref { base base; } } rpc op { input { leaf oi { type t; } } } leaf p8 { type int8; } leaf pu { type uint64; } leaf mm { type int8 { range "min..5 | 7..max"; } } leaf mu { type uint64 { range "1..max"; } } leaf ml { type string { length "min..9 | 11..max"; } } leaf md { type decimal64 { fraction-digits 3; range "min..0 | 1.5..max"; } } }`},
+		{Name: "a.yang", Text: `module a { ` + H("a") + ` typedef t { type int8 { range "1..9"; } default 3; } identity base; identity d1 { base base; } grouping g { leaf gl { type t; } list gli { key k; leaf k { type string; } } } container c { uses g; leaf x { type string; default "` + tag + `"; } } leaf r { type identityref { base base; } } rpc op { input { leaf oi { type t; } } } ` + bigDir + ` leaf p8 { type int8; } leaf pu { type uint64; } leaf mm { type int8 { range "min..5 | 7..max"; } } leaf mu { type uint64 { range "1..max"; } } leaf ml { type string { length "min..9 | 11..max"; } } leaf md { type decimal64 { fraction-digits 3; range "min..0 | 1.5..max"; } } }`},
 		{Name: "b.yang", Text: `module b { ` + H("b") + ` import a { prefix a; } identity d2 { base a:base; } augment /a:c { leaf y { type a:t; } container z { uses a:g; } } container bc { config false; uses a:g; leaf e { type enumeration { enum one; enum two { value 5; } } } } deviation /a:c/a:x { deviate add { units u; } } }`},
 	}
 }
